@@ -208,11 +208,14 @@ HEADER = ("(* GENERATED on every run by vlib/translate.py from the current sourc
 #                    "len"    a collection only its length is read of: `len(x)` is the parameter (Z), truthiness of
 #                             `x` is `p != 0`; any other use is Unsupported
 #            a 4th component "volatile" marks a read an effect may change: reading it after any effect that does
-#            not list it under `keeps` is Unsupported (stale observation)
+#            not list it under `keeps` is Unsupported (stale observation); "needs:<Constructor>" marks a read that
+#            only makes sense after that effect happened on every path to it (`preempt.key` after the victim was picked)
 #   effects  [(python statement with holes _1 _2.., constructor, [hole types], keeps)]
 #                                  statement-level calls / stores whose value is unused, matched structurally; the
 #                                  constructor (applied to the translated holes) is appended to the effect list, so
-#                                  the definition returns the effects IN PROGRAM ORDER
+#                                  the definition returns the effects IN PROGRAM ORDER; a pattern may be any statement
+#                                  (a whole `try: x.remove(y) / except ValueError: pass`); a pattern that is a
+#                                  `return <call>` ends the path (tail call; the function is declared ret="unit")
 #   draws    [(python expression, parameter, type, constructor)]
 #                                  `name = <expression>` consuming an outside value (random.uniform(0, 1)): the value
 #                                  is the parameter, the constructor is appended to the effects; at most once per path
@@ -316,12 +319,12 @@ class FxTr:
     #      stale (volatile params an effect may have changed), drawn (parameters already consumed)
     def env0(self):
         vs = {("self", a): V(f"({self.prefix}{a.lstrip('_')} s)", ty) for a, ty in self.state}
-        return {"vars": vs, "fx": (None, []), "known": {}, "stale": set(), "drawn": set()}
+        return {"vars": vs, "fx": (None, []), "known": {}, "stale": set(), "drawn": set(), "done": set()}
 
     @staticmethod
     def copy(env):
         return {"vars": dict(env["vars"]), "fx": (env["fx"][0], list(env["fx"][1])), "known": dict(env["known"]),
-                "stale": set(env["stale"]), "drawn": set(env["drawn"])}
+                "stale": set(env["stale"]), "drawn": set(env["drawn"]), "done": set(env["done"])}
 
     def fresh(self, base):
         base = base.lstrip("_") or "v"               # self._level -> level1
@@ -347,6 +350,8 @@ class FxTr:
             if pd == d:
                 if p in env["stale"]:
                     raise Unsupported(f"observation {p} is read after an effect that may have changed it")
+                if flag.startswith("needs:") and flag[6:] not in env["done"]:
+                    raise Unsupported(f"observation {p} is read on a path where {flag[6:]} has not happened")
                 return p, ty
         return None
 
@@ -433,6 +438,9 @@ class FxTr:
 
     def cond(self, e, env):
         """e in a boolean context (Python truthiness), as a Coq bool; literals are folded"""
+        rd0 = self.read(e, env)
+        if rd0 is not None and rd0[1] == "bool":
+            return rd0[0]
         if isinstance(e, ast.Compare):
             if len(e.ops) != 1:
                 raise Unsupported("chained comparison")
@@ -531,6 +539,7 @@ class FxTr:
                 env2 = self.copy(env)
                 env2["fx"][1].append(con if not args else "(" + " ".join([con] + args) + ")")
                 env2["stale"] |= {p for p in self.volatile if p not in keeps}
+                env2["done"].add(con)
                 return env2
         return None
 
@@ -571,6 +580,10 @@ class FxTr:
         s, rest = stmts[0], stmts[1:]
         env2 = self.effect(s, env)
         if env2 is not None:
+            if isinstance(s, ast.Return):            # a listed tail call (`return super()._do_put(event)`) ends the path
+                if self.spec.ret != "unit":
+                    raise Unsupported("a listed `return <call>` needs ret='unit' (the call's value is the result)")
+                return k(env2, None)
             return self.block(rest, env2, k)
         if isinstance(s, ast.Pass):
             return self.block(rest, env, k)
@@ -721,6 +734,7 @@ class FxTr:
         for e in ends:
             out_env["stale"] |= e["stale"]
             out_env["drawn"] |= e["drawn"]
+        out_env["done"] = set.intersection(*[e["done"] for e in ends])
         if not changed and not fx_changed:
             return self.block(rest, out_env, k)
         body = f"({head}\n" + "".join(f" {h} " + _ind(r, len(h) + 2) + "\n" for h, r in rendered)
